@@ -865,6 +865,8 @@ func (s *flameSess) handler(l []string) flamego.Handler {
 			s.record(nil)
 			return status, body
 		}
+	case len(l) == 4 && l[0] == "r":
+		return s.resultHandler(l[1], atoi(l[2]), atoi(l[3]))
 	case len(l) == 2 && l[0] == "l":
 		rec := generic(l[1])
 		return reflect.MakeFunc(reflect.TypeOf(flamego.LoggerInvoker(nil)), func(args []reflect.Value) []reflect.Value {
@@ -873,6 +875,77 @@ func (s *flameSess) handler(l []string) flamego.Handler {
 		}).Interface()
 	}
 	return nil
+}
+
+// resultHandler: an ordinary Go function of a COMMON handler type that returns values.  a, b encode the values:
+// error 0 = nil, n = errors.New("e<n>"); string 0 = "", n = "s<n>"; int n = n.  Whether flamego invokes it through
+// reflection or wraps it into a fast invoker of its own, the results must come back unchanged (static types included).
+func (s *flameSess) resultHandler(shape string, a, b int) flamego.Handler {
+	mkErr := func(n int) error {
+		if n == 0 {
+			return nil
+		}
+		return fmt.Errorf("e%d", n)
+	}
+	mkStr := func(n int) string {
+		if n == 0 {
+			return ""
+		}
+		return fmt.Sprintf("s%d", n)
+	}
+	switch shape {
+	case "ce":
+		return func(c flamego.Context) error { s.record([]interface{}{c}); return mkErr(a) }
+	case "cs":
+		return func(c flamego.Context) string { s.record([]interface{}{c}); return mkStr(a) }
+	case "e":
+		return func() error { s.record(nil); return mkErr(a) }
+	case "s":
+		return func() string { s.record(nil); return mkStr(a) }
+	case "cis":
+		return func(c flamego.Context) (int, string) { s.record([]interface{}{c}); return a, mkStr(b) }
+	case "wre":
+		return func(w http.ResponseWriter, r *http.Request) error { s.record([]interface{}{w, r}); return mkErr(a) }
+	case "se":
+		return func() (string, error) { s.record(nil); return mkStr(a), mkErr(b) }
+	case "ie":
+		return func() (int, error) { s.record(nil); return a, mkErr(b) }
+	case "cb":
+		return func(c flamego.Context) []byte { s.record([]interface{}{c}); return []byte(mkStr(a)) }
+	}
+	return nil
+}
+
+// recordResults is mapped as the application's ReturnHandler by `FR`: it writes nothing and lists the raw results
+// it was handed — static type and value of each
+func (s *flameSess) recordResults(c flamego.Context, vals []reflect.Value) {
+	parts := make([]string, len(vals))
+	for i, v := range vals {
+		if !v.IsValid() {
+			parts[i] = "invalid"
+			continue
+		}
+		t := v.Type().String()
+		switch v.Kind() {
+		case reflect.Interface, reflect.Ptr:
+			if v.IsNil() {
+				parts[i] = t + "=nil"
+			} else if e, ok := v.Interface().(error); ok {
+				parts[i] = t + "=" + e.Error()
+			} else {
+				parts[i] = t + "=?"
+			}
+		case reflect.String:
+			parts[i] = t + "=" + hx(v.String())
+		case reflect.Int:
+			parts[i] = fmt.Sprintf("%s=%d", t, v.Int())
+		case reflect.Slice:
+			parts[i] = t + "=" + hx(string(v.Bytes()))
+		default:
+			parts[i] = t + "=?"
+		}
+	}
+	s.events = append(s.events, "res "+strings.Join(parts, ","))
 }
 
 func (s *flameSess) op(l []string) (out string) {
@@ -887,6 +960,9 @@ func (s *flameSess) op(l []string) (out string) {
 		return "ok"
 	case len(l) == 4 && l[0] == "FMT":
 		s.f.MapTo(mkVal(atoi(l[2]), atoi(l[3])), ifacePtrs[atoi(l[1])])
+		return "ok"
+	case len(l) == 1 && l[0] == "FR":
+		s.f.Map(flamego.ReturnHandler(s.recordResults))
 		return "ok"
 	case len(l) == 2 && l[0] == "FV":
 		v := s.f.Value(injTypes[atoi(l[1])])
@@ -1310,6 +1386,42 @@ func (g *injGen) serviceSessions() {
 	}
 }
 
+// resultSessions: handlers of common Go func types that RETURN values, on an application whose ReturnHandler only
+// records what it is handed: the raw results (static type, nil-ness, value) must be the handler's own, whether
+// the handler was invoked reflectively or through a built-in wrapper; the chain goes on after each
+var resultShapes = []string{"ce", "cs", "e", "s", "cis", "wre", "se", "ie", "cb"}
+
+func (g *injGen) resultSessions(random int) {
+	u := universeArgs(nFlameTypes)
+	for _, sh := range resultShapes {
+		for a := 0; a < 2; a++ {
+			for b := 0; b < 2; b++ {
+				g.emit("NEW injectflame %s", u)
+				g.emit("FR")
+				g.emit("H c -")
+				g.emit("H r %s %d %d", sh, a*7, b*3)
+				g.emit("H w")
+				g.emit("H r %s %d %d", sh, b*5, a*2)
+				g.emit("RQ")
+			}
+		}
+	}
+	for i := 0; i < random; i++ {
+		g.emit("NEW injectflame %s", u)
+		g.emit("FR")
+		for q := 1 + g.r.Intn(2); q > 0; q-- {
+			for n := 1 + g.r.Intn(4); n > 0; n-- {
+				if g.r.Intn(3) == 0 {
+					g.emit("H %s", []string{"c -", "w", "hf", "ci -", "l -"}[g.r.Intn(5)])
+				} else {
+					g.emit("H r %s %d %d", resultShapes[g.r.Intn(len(resultShapes))], g.r.Intn(3), g.r.Intn(3))
+				}
+			}
+			g.emit("RQ")
+		}
+	}
+}
+
 func genInject(r *rand.Rand, tier string, emit Emit) {
 	g := newInjGen(r, emit)
 	exScopes, nInj, nFlame := 2, 2500, 700
@@ -1318,6 +1430,7 @@ func genInject(r *rand.Rand, tier string, emit Emit) {
 	}
 	g.fixedFlameSessions()
 	g.serviceSessions()
+	g.resultSessions(nFlame / 5)
 	for n := 1; n <= exScopes; n++ {
 		g.exhaustiveInject(n)
 	}
